@@ -193,6 +193,7 @@ func (c *ControllerWithEvents) LockLedger(ctx context.Context) (Controller, bun.
 		Controller: ctrl,
 		listener:   c.listener,
 		parent:     c,
+		hasTx:      c.hasTx,
 	}, db, release, nil
 }
 
